@@ -411,6 +411,14 @@ func vfClientSites(sim *vfSim, mask int64) {
 	if mask&32 != 0 {
 		sim.sites["f.lock"] = true
 	}
+	if mask&256 != 0 {
+		// probes before clientConn's mutex, which make the yield point inside broadcastErr's critical section safe
+		sim.sites["cc.mu"] = true
+		sim.sites["cc.bcast.end"] = true
+	}
+	if mask&128 != 0 {
+		sim.sites["cc.sent"] = true // a caller between sending its request and waiting for the reply (no context in play)
+	}
 	if mask&64 != 0 {
 		sim.sites["pkt.mid"] = true // between a packet's header and payload writes (client side only)
 	}
